@@ -124,7 +124,7 @@ theorem closed (s₀ : Node) : StepClosed (Inv s₀) where
     refine inv_congr h ?_ ?_ ?_ ?_ ?_ <;> (unfold Node.changeConfigR; dsimp only; split <;> rfl)
   setCommitIndexR := fun s i h => by
     refine inv_congr h ?_ ?_ ?_ ?_ ?_ <;>
-      (unfold Node.setCommitIndexR Node.commitConfig Node.doClose; dsimp only; repeat' split) <;> rfl
+      (unfold Node.setCommitIndexR Node.afterConfigCommit Node.closeIfRemoved Node.stepDownIfNotVoter Node.commitConfig Node.doClose; dsimp only; repeat' split) <;> rfl
   popOrder := fun s h => inv_congr h rfl rfl rfl rfl rfl
   begin := fun s ra ord h => by
     obtain ⟨h1, h2, _⟩ := h
@@ -358,10 +358,7 @@ theorem rpcReply_frame : FrameS (fun s : Node => s.rpcReply) where
     all_goals rfl
 
 theorem rpcDone_result (x : Node) (a b : Bool) : (x.rpcDone a b).rpcReply.map (·.result) = some x.result := by
-  have hp : ∀ (s : Node) site, (s.panic site).rpcReply = s.rpcReply := rpcReply_frame.toFrame.panic
-  unfold Node.rpcDone
-  dsimp only
-  split <;> split <;> first | rfl | (rw [hp]; rfl)
+  rw [Node.rpcDone_reply]; rfl
 
 /-- the reply of a vote step is `success` only if the handler returned `success` -/
 theorem vote_step_shape (s : Node) (q : VoteReq) (ra : List Nat) (ord : List (List Nat))
